@@ -19,6 +19,7 @@ import (
 //	brk/cnt  break; / continue;   (loop contexts only, never inside a finally)
 //	rt0      $z = 1 % 0;                  runtime error raised as a control by the interpreter
 //	rtm      $o = new K(); $o->nope();    runtime error: undefined method
+//	rth      c05_host_fail();             a Go function registered by the embedder panics (Go-level)
 //	rtp      $z = 1 << [1];               runtime error that is a Go-level failure today
 //	try      nested try statement
 type Act struct {
@@ -184,7 +185,7 @@ func (p Prog) valid() bool { return validAct(p.Root, p.Ctx, false, false) }
 
 func validAct(a Act, ctx string, inCatch, inFin bool) bool {
 	switch a.K {
-	case "m", "rt0", "rtm", "rtp":
+	case "m", "rt0", "rtm", "rth", "rtp":
 		return true
 	case "throw", "call":
 		return a.Cls == "E0" || a.Cls == "E1" || a.Cls == "E2"
@@ -301,6 +302,8 @@ func (r *render) act(a nAct, ind int, catchVar string) {
 		r.line(ind, `$z = 1 % 0;`)
 	case "rtm":
 		r.line(ind, fmt.Sprintf(`$o = new %s(); $o->nope();`, r.name("K")))
+	case "rth":
+		r.line(ind, `c05_host_fail();`)
 	case "rtp":
 		r.line(ind, `$z = 1 << [1];`)
 	case "try":
@@ -428,37 +431,62 @@ type bounds struct {
 	D1Types  []string
 	D1MaxC   int
 	Fins     []string // finally bodies ("-" = absent); "ret" is added in function contexts
+	D1xCatch []string // family d1x: extra catch bodies (single catch)
+	D1xFins  []string
 	// depth-2 families: reduced alphabets used for BOTH levels
-	D2Body   []string
-	D2Catch  []string
-	D2Types  []string
-	D2MaxC   int
+	D2Body                  []string
+	D2Catch                 []string
+	D2Types                 []string
+	D2MaxC                  int
 	D2OuterBodyForCatchNest []string // outer try bodies when the inner try sits in the outer catch
 	D2OuterBodyForFinNest   []string // outer try bodies when the inner try sits in the outer finally
 	// depth-3 chains (thorough): tiny alphabets
 	D3 bool
+	// contexts in which the depth-2 families are generated (depth 1 always uses all six)
+	D2Ctx []string
+}
+
+// hasFamily says whether the tier generates the family in the context.
+func (b bounds) hasFamily(fam, ctx string) bool {
+	switch fam {
+	case "d1", "d1x":
+		return true
+	case "d3":
+		return b.D3 && ctx != "funcloop" // funcloop adds nothing a depth-3 chain has not shown in func and for
+	}
+	for _, c := range b.D2Ctx {
+		if c == ctx {
+			return true
+		}
+	}
+	return false
 }
 
 func tierBounds(quick bool) bounds {
 	b := bounds{
-		D1Body:  []string{"m", "tE0", "tE1", "tE2", "rt0", "rtm", "rtp", "cE1"},
-		D1Catch: []string{"m", "tE2", "re"},
-		D1Types: []string{"E0", "E1", "E2", "I", "Exception", "Throwable"},
-		D1MaxC:  2,
-		Fins:    []string{"-", "m", "tE2"},
-		D2Body:  []string{"m", "tE0", "tE2", "rtp", "cE1"},
-		D2Catch: []string{"m", "re", "tE2"},
-		D2Types: []string{"E1", "I", "Throwable"},
-		D2MaxC:  1,
+		D1Body:                  []string{"m", "tE0", "tE1", "tE2", "rt0", "rth", "rtp", "cE1"},
+		D1Catch:                 []string{"m", "tE2", "re"},
+		D1Types:                 []string{"E0", "E1", "E2", "I", "Exception", "Throwable"},
+		D1MaxC:                  2,
+		Fins:                    []string{"-", "m", "tE2"},
+		D1xCatch:                []string{"tE0", "rt0", "rtp", "cE1"},
+		D1xFins:                 []string{"-", "m", "rt0", "rtp", "cE1"},
+		D2Body:                  []string{"m", "tE0", "tE2", "rtp", "cE1"},
+		D2Catch:                 []string{"m", "re", "tE2"},
+		D2Types:                 []string{"E1", "I", "Throwable"},
+		D2MaxC:                  1,
 		D2OuterBodyForCatchNest: []string{"tE0", "tE2", "rtp"},
 		D2OuterBodyForFinNest:   []string{"m", "tE0", "rtp"},
+		D2Ctx:                   []string{"top", "func", "for"},
 	}
 	if !quick {
 		b.D1Catch = []string{"m", "tE2", "re", "tE0", "rt0", "rtp", "cE1"}
 		b.Fins = []string{"-", "m", "tE2", "rtp"}
 		b.D2Types = []string{"E1", "I", "Exception", "Throwable"}
 		b.D2Body = []string{"m", "tE0", "tE2", "rt0", "rtp", "cE1"}
+		b.D1Body = []string{"m", "tE0", "tE1", "tE2", "rt0", "rtm", "rth", "rtp", "cE1"}
 		b.D3 = true
+		b.D2Ctx = contexts
 	}
 	return b
 }
@@ -552,11 +580,14 @@ func tries(bodies []Act, types []string, maxC int, cbodies []Act, finals []*Act,
 	}
 }
 
-var families = []string{"d1", "d2body", "d2catch", "d2fin", "d3"}
+var families = []string{"d1", "d1x", "d2body", "d2catch", "d2fin", "d3"}
 
 // enumerate calls f with every program of the family in the context, in a fixed order. The
 // Prog passed to f shares structure with the enumerator: clone() it to keep it.
 func enumerate(b bounds, fam, ctx string, f func(Prog)) {
+	if !b.hasFamily(fam, ctx) {
+		return
+	}
 	emit := func(t Try) {
 		tt := t
 		p := Prog{Ctx: ctx, Root: Act{K: "try", Try: &tt}}
@@ -569,6 +600,10 @@ func enumerate(b bounds, fam, ctx string, f func(Prog)) {
 	switch fam {
 	case "d1":
 		tries(acts(b.D1Body, ctx, false), b.D1Types, b.D1MaxC, acts(b.D1Catch, ctx, false), fins(b.Fins, ctx), emit)
+	case "d1x":
+		// depth 1, at most one catch, the catch / finally bodies that d1 leaves out: runtime errors
+		// (control-level and Go-level) and a throwing call inside a catch body or a finally body
+		tries(acts(b.D1Body, ctx, false), b.D1Types, 1, acts(b.D1xCatch, "top", false), fins(b.D1xFins, ctx), emit)
 	case "d2body":
 		// inner try is the outer try's body
 		tries(acts(b.D2Body, ctx, false), b.D2Types, b.D2MaxC, acts(b.D2Catch, ctx, false), fins(b.Fins, ctx), func(in Try) {
@@ -598,9 +633,6 @@ func enumerate(b bounds, fam, ctx string, f func(Prog)) {
 			}
 		})
 	case "d3":
-		if !b.D3 {
-			return
-		}
 		// depth-3 chains: each level is try{X}catch(T){Y}finally{Z} over tiny alphabets, the next
 		// level sitting in the body, the catch or the finally of the previous one.
 		leafBody := acts([]string{"m", "tE0", "rtp"}, ctx, false)
